@@ -95,6 +95,8 @@ func (p *printer) Frag(ctx context.Context) iter.Seq[string] {
 					if !yield(string(c)) {
 						return
 					}
+					// the second '%' is consumed too
+					c = s.Next()
 					continue
 				default:
 					panic(fmt.Errorf("unsupported %%%v", c))
